@@ -101,7 +101,7 @@ fn judge(rep: &mut Rep, entry: &str, kind: &str, o: &Outcome, ref_accepts: Optio
 }
 
 pub fn run(rep: &mut Rep) {
-    rep.rule = "proving requests through generate_rln_proof (E1), generate_rln_proof_with_witness (E2) and prove (E4): message id = limit, limit+1, 2^16, p-1; limit 0 and > 2^16 with ids on both sides of limit-2^16; index 2^20, 2^20+1, 2^32, u64::MAX, non-member index; request bytes truncated at every length; declared signal length beyond the buffer / 2^32 / 2^63 / 2^64-1; witnesses with path length 0/19/21, mismatched counts, direction values 2/255, trailing bytes; random bytes; plus valid requests as controls. Outcome classes {Ok+verifies, Ok+fails, Err, panic}; rln.wasm decides satisfiability of well-formed requests. distinct_nontrivial = distinct (entry point, request kind, outcome class)".into();
+    rep.rule = "proving requests through generate_rln_proof (E1), generate_rln_proof_with_witness (E2), prove (E4) and the typed route rln_witness_from_json -> protocol::generate_proof + proof_values_from_witness (E5, malformed paths only): message id = limit, limit+1, 2^16, p-1; limit 0 and > 2^16 with ids on both sides of limit-2^16; index 2^20, 2^20+1, 2^32, u64::MAX, non-member index; request bytes truncated at every length; declared signal length beyond the buffer / 2^32 / 2^63 / 2^64-1; witnesses with path length 0/19/21, mismatched counts, direction values 2/255, trailing bytes; random bytes; plus valid requests as controls. Outcome classes {Ok+verifies, Ok+fails, Err, panic}; rln.wasm decides satisfiability of well-formed requests. distinct_nontrivial = distinct (entry point, request kind, outcome class)".into();
     rep.assumptions = vec!["'verification accepts' = verify and verify_with_roots with the carried root (and verify_rln_proof for requests about a registered member)".into(), "Err on a request the reference accepts is not a C12 violation (completeness is C01's)".into()];
     let thorough = rep.thorough();
     let mut rng = rng_for(rep.seed, "c12");
@@ -308,6 +308,77 @@ pub fn run(rep: &mut Rep) {
         judge(rep, "E2", &format!("witness:{}", kind.split('@').next().unwrap()), &o, *ref_acc, json!({"kind": kind, "witness": hex_short(wb)}));
         let o = e4(&mut c, wb);
         judge(rep, "E4", &format!("witness:{}", kind.split('@').next().unwrap()), &o, *ref_acc, json!({"kind": kind, "witness": hex_short(wb)}));
+    }
+    // ---- B2: the same malformed paths arriving as a typed witness (JSON route) at protocol::generate_proof +
+    // proof_values_from_witness, i.e. without passing the byte decoder. The JSON form is built here from its
+    // definition (every field the byte array of its compressed encoding, the direction values a plain array).
+    {
+        let bytes_json = |b: &[u8]| serde_json::Value::Array(b.iter().map(|x| json!(*x)).collect());
+        let wjson = |w: &Witness| {
+            json!({
+                "identity_secret": bytes_json(&enc_fr(&w.secret)),
+                "user_message_limit": bytes_json(&enc_fr(&w.limit)),
+                "message_id": bytes_json(&enc_fr(&w.msg_id)),
+                "path_elements": bytes_json(&enc_vec_fr(&w.path)),
+                "identity_path_index": w.bits.iter().map(|x| json!(*x)).collect::<Vec<_>>(),
+                "x": bytes_json(&enc_fr(&w.x)),
+                "external_nullifier": bytes_json(&enc_fr(&w.ext)),
+            })
+        };
+        let mut variants: Vec<(String, Witness, Option<bool>)> = vec![("valid".into(), good_w.clone(), Some(true))];
+        for (lvl, val) in [(0usize, 2u8), (5, 2), (19, 255), (3, 128)] {
+            let mut w = good_w.clone();
+            w.bits[lvl] = val;
+            variants.push((format!("direction-value={val}"), w, Some(false)));
+        }
+        for (ne, nb) in [(20usize, 21usize), (20, 25), (20, 19), (19, 20), (21, 20), (0, 20), (20, 0)] {
+            let mut w = good_w.clone();
+            w.path = (0..ne).map(|k| path.get(k).cloned().unwrap_or_else(|| Fr::from(k as u64))).collect();
+            w.bits = (0..nb).map(|k| bits.get(k).cloned().unwrap_or(1)).collect();
+            variants.push((format!("counts-mismatch:{ne}-elements,{nb}-bits"), w, Some(false)));
+        }
+        for n in [0usize, 1, 19, 21, 40] {
+            let mut w = good_w.clone();
+            w.path = (0..n).map(|k| path.get(k).cloned().unwrap_or_else(|| Fr::from(k as u64))).collect();
+            w.bits = (0..n).map(|k| bits.get(k).cloned().unwrap_or(0)).collect();
+            variants.push((format!("path-length={n}"), w, Some(false)));
+        }
+        let mut control_ok = false;
+        for (kind, w, ref_acc) in variants {
+            let j = wjson(&w);
+            // decoding the JSON value is the codec's business (C10); a value the decoder refuses is not a request
+            let typed = match catch(|| rln::protocol::rln_witness_from_json(j.clone()).map_err(|e| e.to_string())) {
+                Ok(Ok(t)) => t,
+                _ => {
+                    rep.count("json_witness_refused_by_the_json_decoder");
+                    continue;
+                }
+            };
+            let o = match catch(|| -> Result<Vec<u8>, String> {
+                let proof = rln::protocol::generate_proof(rln::circuit::zkey_from_folder(), &typed, rln::circuit::graph_from_folder()).map_err(|e| e.to_string())?;
+                let pv = rln::protocol::proof_values_from_witness(&typed).map_err(|e| e.to_string())?;
+                let mut out = vec![];
+                ark_serialize::CanonicalSerialize::serialize_compressed(&proof, &mut out).map_err(|e| e.to_string())?;
+                out.extend(rln::protocol::serialize_proof_values(&pv));
+                Ok(out)
+            }) {
+                Ok(Ok(msg)) => classify_msg(&c, &msg, None, false),
+                Ok(Err(_)) => Outcome::Err,
+                Err(p) => Outcome::Panic(p.file(), p.msg),
+            };
+            if kind == "valid" && o == Outcome::OkVerifies {
+                control_ok = true;
+            }
+            judge(rep, "E5", &format!("json-witness:{kind}"), &o, ref_acc, json!({"kind": kind}));
+            // the values alone (what a caller computes before proving)
+            rep.ev();
+            if let Err(p) = catch(|| rln::protocol::proof_values_from_witness(&typed).map(|_| ()).map_err(|e| e.to_string())) {
+                rep.violation(format!("E5:json-witness:{kind}:values:panic:{}", p.file()), json!({"panic": p.msg, "at": p.loc}));
+            }
+        }
+        if !control_ok {
+            rep.inconclusive("E5 control failed: the JSON form of a valid witness did not yield a verifying proof".to_string());
+        }
     }
     // random request bytes through E1
     for k in 0..(if thorough { 300 } else { 40 }) {
